@@ -199,6 +199,11 @@ rep0_ctx_send(void *arg, nni_aio *aio)
 	}
 
 	if (!nni_aio_start(aio, rep0_ctx_cancel_send, ctx)) {
+		// Refused (e.g. a non-blocking send while the pipe is busy):
+		// the reply was not accepted, so it can still be sent later.
+		ctx->btrace_len = nni_msg_header_len(msg);
+		ctx->pipe_id    = p_id;
+		nni_msg_header_clear(msg);
 		nni_mtx_unlock(&s->lk);
 		return;
 	}
